@@ -66,6 +66,40 @@ def oracle(acts, recs):
     return fails
 
 
+def soak(run, binary, rng, tier):
+    """rare events of the rounding corrections (a surplus larger than the number of non-empty cells, a deficit that is
+    not a multiple of the number of possible outcomes): skewed sparse states, many draws, statement checked on the
+    implementation's histograms directly"""
+    hs = []
+    for _ in range(60 if tier == "quick" else 1500):
+        n = rng.choice([1, 2, 3, 4])
+        N = 1 << n
+        k = rng.choice([2, 2, 3])
+        idx = rng.sample(range(N), min(k, N))
+        pr = rng.choice([0.004, 0.008, 0.015, 0.03])
+        v = [0j] * max(N, 8)
+        v[idx[0]] = complex(math.sqrt(1 - pr * (len(idx) - 1)), 0)
+        for i in idx[1:]:
+            ph = rng.uniform(0, 2 * math.pi)
+            v[i] = complex(math.sqrt(pr) * math.cos(ph), math.sqrt(pr) * math.sin(ph))
+        c = rng.choice([1, 2, 3, 5, 9, 30, 60, 100, 150, 250])
+        hs.append((rng.randrange(1 << 30), [("raw", n, v), ("dump",)] + [("sample", c)] * 100))
+    texts = [(str(i), regcheck.hist_harness(s_, a)) for i, (s_, a) in enumerate(hs)]
+    impl = run_harness(binary, "reg", texts, deadline=60.0)
+    bad = 0
+    for i, (s_, a) in enumerate(hs):
+        recs = regcheck.parse_records(impl.get(str(i), "ABORT missing"))
+        fails = oracle(a, recs)
+        if fails:
+            bad += 1
+            if bad <= 3:
+                rep = regcheck.describe_hist(s_, a)
+                rep.update({"what": "histogram statement fails on the implementation", "failures": fails[:5],
+                            "note": "100 consecutive sample_all(%d) draws on this state" % a[2][1]})
+                run.violation(rep)
+    return 100 * len(hs)
+
+
 if __name__ == "__main__":
     tier, seed = tier_seed()
     run = Run(PROP, tier, seed)
@@ -74,10 +108,13 @@ if __name__ == "__main__":
     hs = histories(run.rng, tier)
     n, dis, recs = regcheck.run_histories(run, binary, hs, PROP, oracle,
                                           "C16 sample_all histogram with recorded normal draws", "C16_histogram")
+    nsoak = soak(run, binary, run.rng, tier)
+    n += nsoak
     cs = [generic.Case(regcheck.hist_harness(s, a)[:300], None, None, None, kind="n=%d" % a[0][1]) for s, a in hs]
     branches = {"deficit": 0, "surplus": 0, "exact": 0}
     generic.finish(run, PROP, au, cs, n, dis,
                    "n = 0..6, states from sparse (1, 2, 3 non-zero cells with exact zeros through the raw-buffer hook) to dense, shot counts "
                    "{0,1,2,3,7,10,101,2048,10^6}, several draws each; the scaled normal draws are recorded by the hook and replayed in the "
-                   "model, histograms compared exactly",
+                   "model, histograms compared exactly; plus a soak of 6000 (150000) draws on skewed sparse states (one dominant outcome, one or two "
+                   "rare ones, 1..250 shots) checked against the statement directly, for the rare rounding-correction events",
                    assumptions=["the Gaussian draws are taken from the implementation (recording hook) and fed to the model"])
